@@ -96,6 +96,10 @@ pub fn valid_alphabet() -> Vec<Letter> {
     }
     let big = vec![b'7'; 200];
     v.push(Letter::new("BIG(2,2,5)", sentence(2, 2, b"5", &big, 0), false));
+    // fragments whose payload is not armoring (validly numbered): unarmoring the delivered group fails
+    v.push(Letter::new("F~(2,1,-)+d", sentence(2, 1, b"", b"~~", 0), true));
+    v.push(Letter::new("F~(2,2,-)+d", sentence(2, 2, b"", b"~~", 0), true));
+    v.push(Letter::new("F~(2,2,5)+d", sentence(2, 2, b"5", b"1~", 0), true));
     v
 }
 
@@ -125,9 +129,6 @@ pub fn ext_alphabet() -> Vec<Letter> {
         }
     }
     v.push(Letter::new("BIG385", sentence(1, 1, b"", &vec![b'1'; 385], 0), false));
-    // fragments whose payload is not armoring
-    v.push(Letter::new("F~(2,1,-)+d", sentence(2, 1, b"", b"~~", 0), true));
-    v.push(Letter::new("F~(2,2,-)+d", sentence(2, 2, b"", b"~~", 0), true));
     v
 }
 
@@ -380,6 +381,41 @@ pub fn groups(prop: &'static str) -> Space {
     )
 }
 
+/// ASM-IDPAIRS: ALL 257 x 257 ordered pairs of sequence ids (absent, 0..=255): a group opened with
+/// id a and continued with id b (as fragment 2 of 2, and as fragment 3 of 3 after a correct
+/// fragment 2) is accepted iff a = b. Judged by the monitor.
+pub fn id_pairs(prop: &'static str) -> Space {
+    Space::new(
+        "ASM-IDPAIRS",
+        "all 257^2 ordered pairs of sequence ids (absent, 0..=255) x {mismatch at fragment 2 of 2, at fragment 3 of 3}",
+        257 * 257 * 2,
+        move |i, l| {
+            let mut r = Radix(i);
+            let three = r.take(2) == 1;
+            let a = r.take(257);
+            let b = r.0;
+            let ids = |x: u64| -> Vec<u8> {
+                if x == 0 {
+                    vec![]
+                } else {
+                    (x - 1).to_string().into_bytes()
+                }
+            };
+            let (ia, ib) = (ids(a), ids(b));
+            let lines: Vec<(Vec<u8>, bool)> = if three {
+                vec![
+                    (sentence(3, 1, &ia, b"31x", 0), false),
+                    (sentence(3, 2, &ia, b"32x", 0), false),
+                    (sentence(3, 3, &ib, b"33x", 0), false),
+                ]
+            } else {
+                vec![(sentence(2, 1, &ia, b"21x", 0), false), (sentence(2, 2, &ib, b"22x", 0), false)]
+            };
+            run_with_monitor(l, prop, &lines);
+        },
+    )
+}
+
 /// ASM-SOAK: long cyclic scripts (600 lines) mixing complete groups, abandoned groups, unfragmented
 /// sentences and every kind of rejected line, judged step by step by the monitor: behaviour must not
 /// depend on how many lines, groups or errors the parser has already seen.
@@ -457,6 +493,7 @@ pub fn hist_alphabet() -> Vec<Letter> {
     v.push(Letter::new("Fd(2,1,-)+d", sentence(2, 1, b"", &t1[..13], 0), true));
     v.push(Letter::new("Fd(2,2,-)+d", sentence(2, 2, b"", &t1[13..], 0), true));
     v.push(frag(2, 2, b"", true));
+    v.push(Letter::new("F~(2,2,-)+d", sentence(2, 2, b"", b"2~", 0), true));
     v.push(Letter::new("U(decodable)", sentence(1, 1, b"", &t1, 0), false));
     v.push(Letter::new("U(undecodable)+d", sentence(1, 1, b"5", b"0000", 0), true));
     let bad2 = Mk::new(2, 2, b"5", b"22b", 0);
@@ -1128,6 +1165,7 @@ pub fn c05(tier: Tier) -> Vec<Space> {
         split_opaque("C05"),
         chain("C05"),
         groups("C05"),
+        id_pairs("C05"),
         soak("C05"),
     ];
     if tier == Tier::Thorough {
@@ -1141,6 +1179,7 @@ pub fn c06(tier: Tier) -> Vec<Space> {
         hist_space("C06", if tier == Tier::Quick { 4 } else { 6 }),
         chain("C06"),
         groups("C06"),
+        id_pairs("C06"),
         soak("C06"),
     ]
 }
